@@ -247,12 +247,14 @@ pub fn check_c05_srv(case: &C05Srv) -> CaseResult {
             &steps,
             &SrvOptions {
                 select_seed: case.base.select_seed,
+                // ... and with the reply direction blocked for a while in the middle of a reply
+                write_stall: Some(((case.base.select_seed as usize) % (ref_writes.len() + 1), 1 + case.base.select_seed % 7)),
                 ..Default::default()
             },
         );
         if run.written_bytes() != ref_writes || run.calls != reference.calls {
             return Err(format!(
-                "partition {} with a decode-level command between the reads: reply stream / handler calls differ from the one-frame-per-read run ({} vs {} bytes written)",
+                "partition {} with a decode-level command between the reads (reply direction stalled once): reply stream / handler calls differ from the one-frame-per-read run ({} vs {} bytes written)",
                 short_partition(p),
                 run.written_bytes().len(),
                 ref_writes.len()
